@@ -72,6 +72,7 @@ type histCfg struct {
 	entrySnappy  bool // Config.EntryCompressionType = Snappy
 	snapSnappy   bool // Config.SnapshotCompressionType = Snappy
 	preVote      bool // Config.PreVote
+	powerLoss    bool // hosts on a strict file system; a voter (and the non-voting host) lose power while clients run
 }
 
 // roles of the hosts (index = replica id - 1)
@@ -101,11 +102,12 @@ type cluster struct {
 	notes  map[string]int
 	noteMu sync.Mutex
 	fss    []config.IFS
-	role   []int    // guarded by mu
-	paused int32    // clients and faults pause (idle period of the quiesce dimension)
-	avoid  int32    // host index + 1 that admin requests do not go to (it is cut off), 0 = none
-	mon    []string // gen-time monitor messages (guarded by noteMu)
-	qlog   []qentry // entries returned by QueryRaftLog (guarded by noteMu)
+	strict []*c01hooks.StrictFS // per host, nil unless cfg.powerLoss
+	role   []int                // guarded by mu
+	paused int32                // clients and faults pause (idle period of the quiesce dimension)
+	avoid  int32                // host index + 1 that admin requests do not go to (it is cut off), 0 = none
+	mon    []string             // gen-time monitor messages (guarded by noteMu)
+	qlog   []qentry             // entries returned by QueryRaftLog (guarded by noteMu)
 }
 
 // qentry is one committed entry returned by QueryRaftLog.
@@ -258,6 +260,13 @@ func startCluster(cfg histCfg) (*cluster, error) {
 		}
 		ex := config.GetDefaultExpertConfig()
 		ex.FS = c01hooks.NewMemFS()
+		if cfg.powerLoss {
+			sf := c01hooks.NewStrictFS()
+			c.strict = append(c.strict, sf)
+			ex.FS = sf.FS()
+		} else {
+			c.strict = append(c.strict, nil)
+		}
 		c.fss = append(c.fss, ex.FS)
 		ex.TransportFactory = &netFactory{net: c.net}
 		ex.Engine = config.EngineConfig{ExecShards: 2, CommitShards: 2, ApplyShards: 2, SnapshotShards: 2, CloseShards: 2}
@@ -878,6 +887,59 @@ func (c *cluster) restartHost(i int, r *vh.Rand) {
 	c.set(i, nh2)
 }
 
+// powerLoss: the hosts lose power at the same instant, while clients use them.
+// Nothing a host sends leaves it from that instant on and nothing it writes
+// becomes durable; what was written but not synced before is gone when it comes
+// back (strict in-memory file system; an on-disk state machine is back at its
+// last Sync). The NodeHost object is closed only to get rid of its goroutines.
+func (c *cluster) powerLoss(hosts []int, r *vh.Rand) {
+	var nhs []*dragonboat.NodeHost
+	var live []int
+	for _, i := range hosts {
+		if nh := c.get(i); nh != nil && c.strict[i] != nil && (c.roleOf(i) == roleVoter || c.roleOf(i) == roleNonVoting) {
+			nhs = append(nhs, nh)
+			live = append(live, i)
+		}
+	}
+	if len(live) == 0 {
+		return
+	}
+	c.net.heal()
+	for _, i := range live {
+		for j := range c.addrs {
+			if j != i {
+				c.net.block(c.addrs[i], c.addrs[j])
+				c.net.block(c.addrs[j], c.addrs[i])
+			}
+		}
+	}
+	for _, i := range live {
+		c.strict[i].Freeze()
+	}
+	for k, i := range live {
+		nhs[k].Close()
+		c.set(i, nil)
+		c.strict[i].Crash()
+		c.rec.powerLoss(uint64(i + 1))
+		c.note("power_loss")
+	}
+	time.Sleep(time.Duration(20+r.Intn(120)) * time.Millisecond)
+	for _, i := range live {
+		nh2, err := dragonboat.NewNodeHost(c.nhcs[i])
+		if err != nil {
+			c.violation("host %d did not come back after a power loss: NewNodeHost: %v", i+1, err)
+			continue
+		}
+		if err := c.startReplica(nh2, nil, false, c.raftConfig(uint64(i+1), c.roleOf(i) == roleNonVoting)); err != nil {
+			c.violation("host %d did not come back after a power loss: StartReplica: %v", i+1, err)
+			nh2.Close()
+			continue
+		}
+		c.set(i, nh2)
+	}
+	c.net.heal()
+}
+
 // leader returns the replica id some live host currently believes to lead (0 = unknown).
 func (c *cluster) leader() uint64 {
 	for i := range c.hosts {
@@ -1023,6 +1085,9 @@ func (c *cluster) schedule() []step {
 	if cfg.restart {
 		st = append(st, step{0.33, "restart"})
 	}
+	if cfg.powerLoss {
+		st = append(st, step{0.52, "powerloss"}, step{0.78, "powerloss"})
+	}
 	if cfg.nonVoting && cfg.lateJoin {
 		st = append(st, step{0.40, "join4"})
 	}
@@ -1064,6 +1129,13 @@ func (c *cluster) nemesis(stop <-chan struct{}, wg *sync.WaitGroup) {
 			switch what {
 			case "restart":
 				c.restartHost(r.Intn(3), r)
+			case "powerloss":
+				// a voter; with the non-voting host at the same instant every other time
+				hs := []int{r.Intn(3)}
+				if r.Bool() {
+					hs = append(hs, 3)
+				}
+				c.powerLoss(hs, r)
 			case "join4":
 				c.net.heal()
 				c.join(3, roleNonVoting, 12)
@@ -1825,6 +1897,7 @@ func runHistory(cfg histCfg) (*histResult, error) {
 	bad := append([]string(nil), c.rec.bad...)
 	c.notes["quiesce_entered"] = int(atomic.SwapInt64(&quiesceEntered, 0))
 	c.notes["snapshot_connections_refused"] = int(atomic.LoadInt64(&c.net.snapRefused))
+	c.notes["sm_syncs"] = c.rec.syncs
 	c.notes["sm_streamed_snapshots"] = c.rec.streams
 	c.notes["sm_recovered_snapshots"] = c.rec.recovers
 	c.rec.mu.Unlock()
